@@ -16,6 +16,11 @@ import warnings
 warnings.simplefilter('ignore')
 cex = json.load(open(sys.argv[1]))
 prop = cex['property']
+# replay mode must be switched on BEFORE any harness/stub module is imported (vf.symkit reads it at import)
+_w = cex.get('witness')
+_assign = _w[-1] if isinstance(_w, (list, tuple)) and _w and isinstance(_w[-1], dict) else {}
+os.environ['VERIF_REPLAY'] = json.dumps(_assign)
+os.environ['VERIF_PARAM'] = json.dumps(cex.get('param') or {})
 
 
 class _Hang(Exception):
